@@ -9,7 +9,18 @@ C07 ops: lifting (model, `C` lines) and the judge of the library's lifted policy
                                           `satEx (availOfWorld W) ms`; where a satisfaction exists
                                           the table's witness is executed by the Script semantics
                                           under that world's nLockTime / nSequence
-  J liftdesc-sem <kind> <args…> <policy>  same for descriptors (key path OR any leaf)
+  J liftdesc-sem <kind> <args…> <policy>  same for descriptors (key path OR any leaf); single-key
+                                          outputs: the P2PKH script is executed with the key's
+                                          signature (must pass) and with another key's (must fail)
+  C lifttree <AST …>                      model's `Liftable for TapTree` (called directly)
+  J lifttree-sem <AST …> <policy>         judged against "any leaf"
+  J liftrefusal <ctx> <ast> <answer>      what the lifter documents about refusals: raw key hashes
+                                          are refused (never shown as anything), `ERR:timelock`
+                                          only when some spending path mixes units, and no policy
+                                          is shown for a script with a satisfiable mixed path
+  J liftcompile <ctx|tr:U> <concrete policy> <lift(compile(policy))>
+                                          same truth table over all assignments of the atoms (for
+                                          `tr:U` with the unspendable internal key `U` unavailable)
 
 Worlds: all subsets of the script's keys (first 5 distinct) and hash preimages (first 3) ×
 (nLockTime, nSequence) on both sides of every lock (both units), as in harness `c02.rs`.
@@ -17,10 +28,11 @@ Worlds: all subsets of the script's keys (first 5 distinct) and hash preimages (
 import MsVerif.Driver.OpsSat
 import MsVerif.Driver.OpsPolicy
 import MsVerif.Model.Lift
+import MsVerif.Spec.Spend
 
 namespace MsVerif.Driver.LiftOps
 open MsVerif MsVerif.Pol MsVerif.MsSem MsVerif.Lift MsVerif.SatTable MsVerif.Driver
-open MsVerif.Driver.PolicyOps (showPolicy parsePolicy)
+open MsVerif.Driver.PolicyOps (showPolicy parsePolicy parseCPolicy)
 
 def showErrKind : LiftErr → String
   | .heightTimelockCombination => "ERR:timelock"
@@ -94,7 +106,8 @@ def lockTimes (afters : List Nat) : List Nat :=
 def sequences (olders : List Nat) : List Nat :=
   (4294967294 :: olders.flatMap (fun n =>
     let c := relCanonN n
-    if c % 65536 > 1 then [c, c - 1] else [c])).eraseDups
+    -- the lock itself, one below, and the same value with non-consensus bits set in nSequence
+    (if c % 65536 ≥ 1 then [c, c - 1] else [c]) ++ [c + 65536 * 3])).eraseDups
 
 structure WorldSpec where
   keys : List Key
@@ -185,7 +198,7 @@ def parseDesc (kind : String) (args : List String) : Option Desc :=
   | "wsh", [a] => (parseAst a).map .wsh
   | "sh", [a] => (parseAst a).map .sh
   | "shwsh", [a] => (parseAst a).map .shWsh
-  | "tr", k :: leaves => do
+  | "tr", k :: leaves | "trdirect", k :: leaves => do
     let k ← k.toNat?
     let ls ← leaves.mapM parseAst
     pure (.tr k ls)
@@ -199,9 +212,43 @@ def descParts : Desc → Ctx × List Ms × List Key
   | .sh ms => (.legacy, [ms], [])
   | .tr k leaves => (.tap, leaves, [k])
 
-def judgeDesc (t : Tables) (d : Desc) (pol : Policy) : String :=
-  let (ctx, mss, ks) := descParts d
-  match firstBad (worldsFor mss ks) (fun w =>
+/-- run a raw script on a witness (bottom first) -/
+def runOps (t : Tables) (ctx : Ctx) (lt sq : Nat) (ops : List Script.Op) (wit : List Bytes) :
+    Except Script.Err (List Bytes) :=
+  let env := mkEnv t ctx false lt sq
+  match Script.run env ops (Script.State.init wit.reverse) with
+  | .ok s => if s.conds.isEmpty then .ok s.core.stack else .error .unbalancedConditional
+  | .error e => .error e
+
+/-- single-key outputs: the P2PKH script (scriptPubKey of `pkh`, implied script of `wpkh` /
+`sh(wpkh)`) accepts `<sig k> <pk k>` and rejects `<sig other> <pk k>`.  "" = as expected. -/
+def execKeyHash (t : Tables) (ctx : Ctx) (w : WorldSpec) (k other : Key) : String :=
+  let script := Spend.p2pkhScript (t.keyEnv.pkh k)
+  let pk := t.keyEnv.ser k
+  let sigOf (x : Key) : Option Bytes := (t.sigs.find? fun p => p.1 == t.keyEnv.ser x).map (·.2)
+  let W := w.world
+  if W.canSign k then
+    match sigOf k with
+    | none => "no-signature-in-table"
+    | some sg =>
+      match runOps t ctx w.lt w.sq script [sg, pk] with
+      | .ok [v] => if Script.castToBool v then "" else "p2pkh-own-signature-left-false"
+      | .ok _ => "p2pkh-unclean"
+      | .error e => "p2pkh-exec-error:" ++ reprStr e
+  else if W.canSign other then
+    match sigOf other with
+    | none => ""
+    | some sg =>
+      match runOps t ctx w.lt w.sq script [sg, pk] with
+      | .ok [v] => if Script.castToBool v then "p2pkh-accepts-another-keys-signature" else ""
+      | _ => ""
+  else ""
+
+/-- judge a policy against outputs made of scripts (any of them) and bare keys (any of them);
+`spec` is the specification's value (`semDesc` …), cross-checked against the table -/
+def judgeParts (t : Tables) (ctx : Ctx) (mss : List Ms) (ks extra : List Key) (spec : World → Bool)
+    (keyExec : WorldSpec → String) (pol : Policy) : String :=
+  match firstBad (worldsFor mss (ks ++ extra)) (fun w =>
     let W := w.world
     let rs := mss.map (fun ms => judgeScriptWorld t ctx ms w)
     let ex := ks.any W.canSign || rs.any (·.1)
@@ -209,12 +256,56 @@ def judgeDesc (t : Tables) (d : Desc) (pol : Policy) : String :=
     match rs.find? (fun r => r.2 != "") with
     | some r => some s!"bad:{w.show}:{r.2}"
     | none =>
-      if ex != semDesc W d then some s!"bad:{w.show}:spec-semDesc-differs-from-table"
+      let ke := keyExec w
+      if ke != "" then some s!"bad:{w.show}:{ke}"
+      else if ex != spec W then some s!"bad:{w.show}:spec-differs-from-table"
       else if h != ex then
         some s!"bad:{w.show}:policy-says-{h}-but-spendable={ex}"
       else none) with
   | some s => s
   | none => "ok"
+
+/-- a key of the tables different from `k` (same kind), used as "somebody else" -/
+def otherKey (k : Key) : Key := if k % 100 == 0 then k + 1 else k - 1
+
+def judgeDesc (t : Tables) (d : Desc) (pol : Policy) : String :=
+  let (ctx, mss, ks) := descParts d
+  match d with
+  | .pkh k => judgeParts t .legacy [] [k] [otherKey k] (fun W => semDesc W d)
+      (fun w => execKeyHash t .legacy w k (otherKey k)) pol
+  | .wpkh k | .shWpkh k => judgeParts t .segwitv0 [] [k] [otherKey k] (fun W => semDesc W d)
+      (fun w => execKeyHash t .segwitv0 w k (otherKey k)) pol
+  | _ => judgeParts t ctx mss ks [] (fun W => semDesc W d) (fun _ => "") pol
+
+/-- `TapTree::lift` called directly: any leaf -/
+def judgeTree (t : Tables) (leaves : List Ms) (pol : Policy) : String :=
+  judgeParts t .tap leaves [] [] (fun W => leaves.any (sem W)) (fun _ => "") pol
+
+/-- what the lifter documents about refusals -/
+def judgeRefusal (ms : Ms) (ans : String) : String :=
+  if ans == "PANIC" then "bad:panic"
+  else if ans == "ERR:rawpkh" then
+    if mentionsRaw ms then "ok" else "bad:refused-as-raw-key-hash-but-the-script-has-none"
+  else if ans == "ERR:timelock" then
+    if hasMixedPath true ms then "ok" else "bad:refused-as-timelock-combination-but-no-path-mixes-units"
+  else if ans.startsWith "ERR" then "ok"           -- resource limits: correspondence only
+  else if mentionsRaw ms then "bad:raw-key-hash-shown-as-a-policy"
+  else if hasMixedPath false ms then "bad:policy-shown-although-a-satisfiable-path-mixes-lock-units"
+  else "ok"
+
+/-- `lift(compile(p))` has the truth table of `p` (every assignment; `unsp`: unavailable key) -/
+def judgeLiftCompile (unsp : Option Nat) (c : CPolicy) (q : Policy) : String :=
+  let atoms := atomsOfC c ++ atomsOf q
+  let fix (v : Atom → Bool) : Atom → Bool := fun a =>
+    match unsp with
+    | some u => if a == .key u then false else v a
+    | none => v a
+  match (subsets atoms.eraseDups).find? (fun ts =>
+      holdsA (fix (valOf ts)) q != holdsC (fix (valOf ts)) c) with
+  | none => "ok"
+  | some ts =>
+    let shown := ",".intercalate ((ts.filter (fun a => fix (valOf ts) a)).map PolicyOps.showAtom)
+    s!"bad:true-atoms=[{shown}]:policy={holdsC (fix (valOf ts)) c},lifted={holdsA (fix (valOf ts)) q}"
 
 def splitLast : List String → Option (List String × String)
   | [] => none
@@ -236,6 +327,30 @@ def opsLift (t : Tables) (kind op : String) (args : List String) : Option String
     else match parsePolicy pol with
       | none => pure "bad:unparseable-policy"
       | some p => pure (judgeMs t ctx ms p)
+  | "C", "lifttree", leaves => do
+    let ls ← leaves.mapM parseAst
+    pure (showLiftRes (liftTapTree t.keyEnv ls))
+  | "J", "lifttree-sem", args => do
+    let (leaves, pol) ← splitLast args
+    let ls ← leaves.mapM parseAst
+    if pol.startsWith "ERR" then pure "ok"
+    else if pol == "PANIC" then pure "bad:panic"
+    else match parsePolicy pol with
+      | none => pure "bad:unparseable-policy"
+      | some p => pure (judgeTree t ls p)
+  | "J", "liftrefusal", [_ctx, ast, ans] => do
+    let ms ← parseAst ast
+    pure (judgeRefusal ms ans)
+  | "J", "liftcompile", [target, c, q] => do
+    let c ← parseCPolicy c
+    let unsp : Option Nat ← (match target.splitOn ":" with
+      | ["tr", u] => u.toNat?.map some
+      | _ => some none)
+    if q.startsWith "ERR" then pure "ok"          -- a refusal shows no policy
+    else if q == "PANIC" then pure "bad:panic"
+    else match parsePolicy q with
+      | none => pure "bad:unparseable-policy"
+      | some q => pure (judgeLiftCompile unsp c q)
   | "J", "liftdesc-sem", k :: rest => do
     let (dargs, pol) ← splitLast rest
     let d ← parseDesc k dargs
